@@ -120,7 +120,8 @@ class View(Obj):
                 raise Panics('swap out of bounds')
             self.base[self.lo + i], self.base[self.lo + j] = self.base[self.lo + j], self.base[self.lo + i]
         Obj.__init__(self, 'slice', {'reverse': rev, 'swap': swap, 'len': lambda a: self.hi - self.lo, 'is_empty': lambda a: self.hi == self.lo,
-                                     'iter': lambda a: self.base[self.lo:self.hi], 'iter_mut': lambda a: self.base[self.lo:self.hi],
+                                     'iter': lambda a: self.base[self.lo:self.hi],
+                                     'iter_mut': lambda a: [(Cell(self.base, i_) if (_scalar(self.base[i_]) or _is_opt(self.base[i_])) else self.base[i_]) for i_ in range(self.lo, self.hi)],
                                      'to_vec': lambda a: deep_clone(self.base[self.lo:self.hi])}, strict=True)
 
     def getitem(self, i):
@@ -149,6 +150,16 @@ def wrap_int(v, ty):
 def in_range(v, ty):
     w, signed = ty
     return (-(1 << (w - 1)) <= v < (1 << (w - 1))) if signed else (0 <= v < (1 << w))
+
+
+def _is_log_guard(c):
+    """the level test the `log` crate's macros expand to"""
+    for n in hir.nodes(c):
+        if n.get('k') in ('Call', 'Path'):
+            p_ = hir.callee(n) if n.get('k') == 'Call' else ((n.get('res') or {}).get('path') or '')
+            if p_ in ('log::max_level', 'log::STATIC_MAX_LEVEL'):
+                return True
+    return False
 
 
 def _exp(v):
@@ -261,6 +272,9 @@ def deep_clone(v):
     return v
 
 
+HASH_ITER_SORTED = False      # an evaluator may fix an iteration order for hash sets where the property must hold for every order
+
+
 class HSet(Obj):
     """HashSet / BTreeSet of hashable values: membership only (iteration order of a hash set is unspecified, so iterating one is not evaluated)"""
     def __init__(self, items=(), ordered=False):
@@ -285,7 +299,7 @@ class HSet(Obj):
         return had
 
     def _iter(self, a):
-        if self.ordered:
+        if self.ordered or HASH_ITER_SORTED:
             return sorted(self.s)
         if len(self.s) <= 1:
             return list(self.s)
@@ -794,6 +808,8 @@ class Interp:
             return bool(self.bind(e['pat'], self.ev(e['init'], env), env))
         if k == 'If':
             c = hir.strip(e['cond'])
+            if e.get('else') is None and _is_log_guard(c):
+                return None          # the `log` crate's macros: `if lvl <= STATIC_MAX_LEVEL && lvl <= log::max_level() { .. }` — logging does not take part in the computation
             if c.get('k') == 'LetCond':
                 e2 = env
                 ok = self.bind(c['pat'], self.ev(c['init'], env), e2)
@@ -954,6 +970,8 @@ class Interp:
             return Deque() if th_.startswith('VecDeque<') else []
         if c.endswith('with_capacity') and 'Vec' in (e.get('ty') or '') + c:
             return []
+        if re.search(r'\b(Hash|BTree)Set<', (e.get('ty') or '')) and c.endswith(('::new', '::default', '::with_capacity')) and ('Set' in c or 'Default' in c) and len(e['args']) <= 1:
+            return HSet((), 'BTreeSet' in (e.get('ty') or ''))
         if c.endswith(('HashMap::<K, V, S>::default', 'Default>::default', 'Default::default')) or ('HashMap' in (e.get('ty') or '') and c.endswith(('::new', '::default'))):
             t = e.get('ty') or ''
             if 'HashMap' in t or 'BTreeMap' in t:
@@ -978,6 +996,10 @@ class Interp:
                 return NONE
             if t0_ == '()':
                 return ()
+            if t0_.startswith(('std::boxed::Box<[', 'Box<[', 'std::vec::Vec<', 'alloc::vec::Vec<', 'Vec<')):
+                return []
+            if t0_ in ('f64', 'f32'):
+                return 0.0
         if c.endswith(('Default>::default', 'Default::default')) and not e['args'] and self.facts is not None:
             t_ = (e.get('ty') or '').strip()
             k_ = '<%s as std::default::Default>::default' % t_
@@ -1057,12 +1079,16 @@ class Interp:
             raise NoEval('method %s on %s' % (nm, recv.name))
         if nm == 'peekable' and isinstance(recv, list) and not args:
             return PeekIter(recv)
+        if _is_opt(recv) and nm in ('into_iter', 'iter') and not args:
+            return [] if recv == NONE else [recv[1]]          # an Option iterates over zero or one element
+        if isinstance(recv, dict) and '__struct__' in recv and nm in ('iter', 'into_iter', 'iter_mut') and not args and self._inlinable(e.get('callee') or ''):
+            return self.local_call(e['callee'], [recv])          # the type's own iterator method
         if nm in ('clone', 'to_owned', 'copied', 'cloned', 'iter', 'into_iter', 'iter_mut', 'by_ref', 'as_slice', 'to_vec', 'as_ref', 'as_mut', 'borrow', 'peekable', 'into', 'as_deref') and not args:
             if nm in ('clone', 'to_owned', 'to_vec', 'cloned', 'copied') and isinstance(recv, (list, dict)):
                 return deep_clone(recv)
             if isinstance(recv, dict) and nm == 'iter_mut' and '__struct__' not in recv:
                 return [(k_, Cell(recv, k_) if _scalar(v_) else v_) for k_, v_ in list(recv.items())]
-            if isinstance(recv, dict) and nm in ('iter', 'into_iter', 'iter_mut'):
+            if isinstance(recv, dict) and '__struct__' not in recv and nm in ('iter', 'into_iter', 'iter_mut'):
                 return [(k_, v_) for k_, v_ in recv.items()]
             if isinstance(recv, list) and nm == 'iter_mut' and recv and all(_scalar(x) for x in recv):
                 return [Cell(recv, i_) for i_ in range(len(recv))]
@@ -1074,6 +1100,8 @@ class Interp:
             if nm == 'replace' and len(args) == 1:
                 self.place_set(e['recv'], some(A()), env)
                 return recv
+            if nm in ('as_mut', 'as_deref_mut') and not args and recv != NONE and _scalar(recv[1]) and not isinstance(recv[1], Obj):
+                raise NoEval('a mutable reference into an Option of a scalar')      # (a copy would silently lose the writes)
             if nm in ('as_ref', 'as_mut', 'as_deref', 'as_deref_mut', 'copied', 'cloned') and not args:
                 return recv
             if nm == 'and_then' and len(args) == 1:
@@ -1151,7 +1179,9 @@ class Interp:
                 return some(recv.pop(k_)) if k_ in recv else NONE
             if nm in ('keys', 'into_keys'):
                 return list(recv.keys())
-            if nm in ('values', 'into_values', 'values_mut'):
+            if nm == 'values_mut':
+                return [(Cell(recv, k_) if (_scalar(v_) or _is_opt(v_)) else v_) for k_, v_ in list(recv.items())]
+            if nm in ('values', 'into_values'):
                 return list(recv.values())
             if nm == 'len':
                 return len(recv)
@@ -1652,6 +1682,8 @@ class Interp:
                 it = self.ev(s['iter'], env)
                 if isinstance(it, dict):
                     it = list(it.items())
+                if isinstance(it, HSet):
+                    it = it._iter(())          # (sorted for a BTreeSet; a hash set of more than one element has no modelled order)
             if not isinstance(it, (list, tuple)):
                 raise NoEval('for over %s' % type(it).__name__)
             for x in list(it):
